@@ -743,6 +743,64 @@ func checkC17(ctx *Ctx) *Result {
 		}
 		r.check(bad == "", "R17.a", funcName(f)+": "+par+" dereferenced only after the nil test", p.Pos(f.Pos()), bad, len(paths))
 	}
+	// ... and in the functions that manage the Middleware's state: the
+	// configuration pointer (nil on a passthrough middleware) and the builder's
+	// result (nil for a nil Config) are dereferenced only where the path has
+	// excluded nil
+	if mt := ctx.MwTable(); len(mt.Problems) == 0 {
+		isNullable := func(t *Term) bool {
+			if t == nil {
+				return false
+			}
+			if t.Op == "load" && len(t.Args) == 1 && t.Args[0].Op == "faddr" && t.Args[0].Name == mt.PtrFld {
+				return true
+			}
+			return t.Op == "ext" && t.Idx == 0 && len(t.Args) == 1 && t.Args[0].Op == "call" && val.Builder != nil && t.Args[0].Name == funcName(val.Builder)
+		}
+		for _, name := range sortedKeys(mt.Funcs) {
+			mf := mt.Funcs[name]
+			if rtc := ctx.RequestTable().Closure; rtc != nil && mf.Fn == rtc {
+				continue // the request closure: next rule
+			}
+			bad := ""
+			for _, mp := range mf.Paths {
+				excluded := func(x *Term) bool {
+					if mp.Val("bin:==("+x.Key()+", nil)") == -1 {
+						return true
+					}
+					// the builder returns a configuration whenever it is given a
+					// Config and reports no error (R8.3)
+					if x.Op == "ext" && len(x.Args[0].Args) == 1 {
+						return mp.Val("bin:==("+x.Args[0].Args[0].Key()+", nil)") == -1 && mp.Val("bin:==("+x.Args[0].Key()+"#1, nil)") == 1
+					}
+					return false
+				}
+				look := func(t *Term) {
+					if t == nil {
+						return
+					}
+					t.Mentions(func(s *Term) bool {
+						if (s.Op == "faddr" || s.Op == "load" || s.Op == "field") && len(s.Args) > 0 && isNullable(s.Args[0]) && !excluded(s.Args[0]) {
+							bad = "the possibly-nil " + s.Args[0].Key() + " is dereferenced (" + s.Key() + ") on path {" + mp.AtomString() + "}"
+						}
+						return false
+					})
+				}
+				for _, a := range mp.Atoms {
+					look(a.T)
+				}
+				for _, e := range mp.Effects {
+					for _, arg := range e.Args {
+						look(arg)
+					}
+				}
+				for _, rt := range mp.Rets {
+					look(rt)
+				}
+			}
+			r.check(bad == "", "R17.a", name+": configuration pointer and builder result dereferenced only where nil is excluded", p.Pos(mf.Fn.Pos()), bad, len(mf.Paths))
+		}
+	}
 	if rt := ctx.RequestTable(); rt.Closure != nil {
 		bad := ""
 		for _, rp := range rt.Paths {
@@ -828,41 +886,120 @@ func checkC17(ctx *Ctx) *Result {
 	r.check(len(unexplained) == 0, "R17.b", "every compiler-unproven bounds check of the module was examined", "", fmt.Sprintf("bounds checks at %v were reported by the compiler but no index/slice operation of a reachable function was analysed there", unexplained), len(unproven))
 
 	// ---- R17.c -----------------------------------------------------------
-	for _, cs := range we.callers[p.Func(pkgUtil, "(SortedSet).IndexAfter")] {
-		// the starting point is -1, or a loop-carried value that is -1 initially
-		// and a previous result afterwards — possibly kept shifted by a constant
-		arg, d := ssaAffine(cs.Call.Common().Args[1])
-		good, detail := false, ""
-		switch v := arg.(type) {
-		case *ssa.Const:
-			good = v.Int64()+d == -1
-			detail = fmt.Sprintf("IndexAfter called with the constant %d", v.Int64()+d)
-		case *ssa.Phi:
-			good = true
-			for _, e := range v.Edges {
-				eb, eo := ssaAffine(e)
-				switch ev := eb.(type) {
-				case *ssa.Const:
-					if ev.Int64()+eo+d != -1 {
-						good, detail = false, fmt.Sprintf("position initialised to %d", ev.Int64()+eo+d)
+	ia := p.Func(pkgUtil, "(SortedSet).IndexAfter")
+	isIndexAfter := func(f *ssa.Function) bool {
+		if f == nil || ia == nil {
+			return false
+		}
+		if f == ia {
+			return true
+		}
+		// a method-expression thunk or bound-method wrapper of IndexAfter
+		return p.methodValueWrapper(f) && f.Object() == ia.Object()
+	}
+	// posOK: v + d is a legitimate starting point for IndexAfter — the constant
+	// -1, or a loop-carried value that is -1 initially and a previous result of
+	// IndexAfter afterwards (possibly kept shifted by a constant, handed through
+	// a parameter of a module helper or returned by one).
+	var posOK func(v ssa.Value, d int64, seen map[ssa.Value]bool) string
+	posOK = func(v ssa.Value, d int64, seen map[ssa.Value]bool) string {
+		base, off := ssaAffine(v)
+		d += off
+		if seen[base] {
+			return ""
+		}
+		seen[base] = true
+		results := func(c *ssa.Call, idx int) string {
+			f := c.Common().StaticCallee()
+			if isIndexAfter(f) {
+				if d != 0 {
+					return fmt.Sprintf("a previous result shifted by %d", d)
+				}
+				return ""
+			}
+			if f == nil || !p.InModule(f) || len(f.Blocks) == 0 {
+				return "position comes from " + c.String()
+			}
+			for _, b := range f.Blocks {
+				for _, ins := range b.Instrs {
+					if ret, ok := ins.(*ssa.Return); ok && idx < len(ret.Results) {
+						if w := posOK(ret.Results[idx], d, seen); w != "" {
+							return w
+						}
 					}
-				case *ssa.Phi:
-					// nested loop header: same value carried
-					if eo != 0 {
-						good, detail = false, "position comes from "+e.String()
-					}
-				case *ssa.Call:
-					if f := ev.Common().StaticCallee(); f == nil || funcName(f) != "(util.SortedSet).IndexAfter" || ev.Common().Args[0] != cs.Call.Common().Args[0] || eo+d != 0 {
-						good, detail = false, "position comes from "+e.String()
-					}
-				default:
-					good, detail = false, "position comes from "+e.String()
 				}
 			}
-		default:
-			detail = "IndexAfter's first argument is neither -1 nor a loop-carried previous result: " + arg.String()
+			return ""
 		}
-		r.check(good, "R17.c", funcName(cs.Caller)+" → IndexAfter", p.Pos(cs.Call.Pos()), detail, 1)
+		switch x := base.(type) {
+		case *ssa.Const:
+			if x.Int64()+d != -1 {
+				return fmt.Sprintf("position initialised to %d", x.Int64()+d)
+			}
+			return ""
+		case *ssa.Phi:
+			for _, e := range x.Edges {
+				if w := posOK(e, d, seen); w != "" {
+					return w
+				}
+			}
+			return ""
+		case *ssa.Call:
+			return results(x, 0)
+		case *ssa.Extract:
+			if c, ok := x.Tuple.(*ssa.Call); ok {
+				return results(c, x.Index)
+			}
+		case *ssa.Parameter:
+			fn := x.Parent()
+			idx := -1
+			for i, q := range fn.Params {
+				if q == x {
+					idx = i
+				}
+			}
+			sites := we.callers[fn]
+			if idx < 0 || len(sites) == 0 || (fn.Object() != nil && fn.Object().Exported() && !p.methodValueWrapper(fn)) {
+				return "position is the parameter " + x.Name() + " of " + funcName(fn) + ", whose callers are not all known"
+			}
+			for _, cs := range sites {
+				args := cs.Call.Common().Args
+				if idx >= len(args) {
+					return "position is the parameter " + x.Name() + " of " + funcName(fn) + " (call site with fewer arguments)"
+				}
+				if w := posOK(args[idx], d, seen); w != "" {
+					return w
+				}
+			}
+			return ""
+		case *ssa.FreeVar:
+			// (a bound method value captures its receiver, not the position)
+		}
+		return "IndexAfter's first argument is neither -1 nor a loop-carried previous result: " + base.String()
+	}
+	var iaSites []callSite
+	for f, sites := range we.callers {
+		if isIndexAfter(f) {
+			for _, cs := range sites {
+				if !isIndexAfter(cs.Caller) {
+					iaSites = append(iaSites, cs)
+				}
+			}
+		}
+	}
+	sort.Slice(iaSites, func(i, j int) bool { return iaSites[i].Call.Pos() < iaSites[j].Call.Pos() })
+	for _, cs := range iaSites {
+		args := cs.Call.Common().Args
+		// the position is the parameter after the receiver (a bound method value carries its receiver itself)
+		k := 1
+		if f := cs.Call.Common().StaticCallee(); f != nil && strings.HasPrefix(f.Synthetic, "bound method wrapper") {
+			k = 0
+		}
+		detail := "unexpected arity"
+		if k < len(args) {
+			detail = posOK(args[k], 0, map[ssa.Value]bool{})
+		}
+		r.check(detail == "", "R17.c", funcName(cs.Caller)+" → IndexAfter", p.Pos(cs.Call.Pos()), detail, 1)
 	}
 	// (the non-negativity of the carried result is the C14 step table: the position is only updated under ¬(result < 0))
 	if fnc := p.Func(pkgHeaders, "Check"); fnc != nil {
@@ -1002,6 +1139,11 @@ func checkC17(ctx *Ctx) *Result {
 	sort.Strings(lem)
 	r.sample(map[string]any{"functions_examined": len(fns), "bounds_operations_on_paths": total, "distinct_sites": len(br.sites), "proved_by_zone_reasoning": br.proved,
 		"left_to_compiler_prove_pass": br.byCompiler, "failed": br.failed, "compiler_unproven_lines": len(unproven), "compiler_lines_in_inlined_library_helpers": missed, "named_lemmas_used": lem})
+	// "returns": no call is left waiting on the middleware's own lock
+	r.share(checkC07(ctx), map[string]string{
+		"R7.2": "every lock acquired by Reconfigure, SetDebug, Config and the request closure is released on every path",
+		"R7.4": "no interface/dynamic call and no call into module code while the lock is held (a wrapped handler calling SetDebug or Reconfigure would never return)",
+	}, nil)
 	return r
 }
 
